@@ -37,14 +37,13 @@ def lp_gain(mdp):
     return {"status": 0, "g": [fj(x) for x in r.x[:n]]}
 
 
-def one(case, pl):
-    from msdm.algorithms.multichainpolicyiteration import MultichainPolicyIteration
-    mdp = build_mdp(case["mdp"], explicit_lists=case.get("explicit_lists", False))
+def plan_step(planner, mdpcase, case, pl):
+    mdp = build_mdp(mdpcase, explicit_lists=case.get("explicit_lists", False))
     sl, al = list(mdp.state_list), list(mdp.action_list)
     res = {"state_list": sl, "action_list": al,
            "absorbing_vec": [bool(x) for x in mdp.absorbing_state_vec]}
     try:
-        r = MultichainPolicyIteration(max_iterations=int(case["max_iterations"])).plan_on(mdp)
+        r = planner.plan_on(mdp)
         res["out"] = {
             "g": [fj(r.state_gain[s]) for s in sl],
             "Qg": [[fj(r.action_gain[s][a]) for a in al] for s in sl],
@@ -57,13 +56,31 @@ def one(case, pl):
         if isinstance(e, (KeyboardInterrupt, SystemExit)):
             raise
         res["out"] = {"error": type(e).__name__ + ": " + str(e)[:300]}
-    if case["mdp"]["gamma"] == "1" and pl.get("lp", True):
+    if mdpcase["gamma"] == "1" and pl.get("lp", True):
         try:
             res["lp"] = lp_gain(mdp)
         except BaseException as e:
             if isinstance(e, (KeyboardInterrupt, SystemExit)):
                 raise
             res["lp"] = {"status": -1, "error": type(e).__name__ + ": " + str(e)[:200]}
+    return res
+
+
+def one(case, pl):
+    """ONE planner object plans on case["mdp"] and then, in order, on every MDP of case["more"]
+    (planner reuse across problems is ordinary usage: parameter sweeps)"""
+    from msdm.algorithms.multichainpolicyiteration import MultichainPolicyIteration
+    planner = MultichainPolicyIteration(max_iterations=int(case["max_iterations"]))
+    res = plan_step(planner, case["mdp"], case, pl)
+    if case.get("more"):
+        res["more"] = []
+        for m in case["more"]:
+            try:
+                res["more"].append(plan_step(planner, m, case, pl))
+            except BaseException as e:
+                if isinstance(e, (KeyboardInterrupt, SystemExit)):
+                    raise
+                res["more"].append({"error": type(e).__name__ + ": " + str(e)[:300]})
     return res
 
 
